@@ -1007,6 +1007,8 @@ sf_command	(SNDFILE *sndfile, int command, void *data, int datasize)
 					psf->error = SFE_BAD_COMMAND_PARAM ;
 				return 0 ;
 				} ;
+			if (datasize <= 0)
+				return 0 ;
 			snprintf (data, datasize, "%s", sf_version_string ()) ;
 			return strlen (data) ;
 
@@ -1147,6 +1149,8 @@ sf_command	(SNDFILE *sndfile, int command, void *data, int datasize)
 		case SFC_GET_LOG_INFO :
 			if (data == NULL)
 				return SFE_BAD_COMMAND_PARAM ;
+			if (datasize <= 0)
+				return 0 ;
 			snprintf (data, datasize, "%s", psf->parselog.buf) ;
 			return strlen (data) ;
 
